@@ -1,0 +1,43 @@
+//go:build verif && !musl
+
+package proxy
+
+import (
+	"context"
+
+	vialite "go.minekube.com/vialite"
+)
+
+// Verification hook (build tag `verif`, add-only): lets the harness register backends through the real
+// Proxy.Register path with Via routing them, without the native Via library. No logic of its own.
+
+// c19ViaServer stands in for the running vialite server: it accepts every backend.
+type c19ViaServer struct{}
+
+func (c19ViaServer) Start(context.Context) error                 { return nil }
+func (c19ViaServer) WaitReady(context.Context) error             { return nil }
+func (c19ViaServer) Stop(context.Context) error                  { return nil }
+func (c19ViaServer) Healthy() bool                               { return true }
+func (c19ViaServer) BackendDialAddress(string) (string, error)   { return "127.0.0.1:0", nil }
+func (c19ViaServer) RemoveBackend(context.Context, string) error { return nil }
+func (c19ViaServer) AddBackend(context.Context, vialite.Backend) (string, error) {
+	return "127.0.0.1:0", nil
+}
+
+// C19SetViaRunning installs (on=true) or removes the stand-in as the managed runner's running server,
+// which is what viaManagedRunner.Start does after vialite.New succeeded.
+func C19SetViaRunning(p *Proxy, on bool) {
+	p.via.mu.Lock()
+	defer p.via.mu.Unlock()
+	if on {
+		p.via.server = c19ViaServer{}
+		if p.via.activeBackends == nil {
+			p.via.activeBackends = map[string]struct{}{}
+		}
+		if p.via.dynamicBackends == nil {
+			p.via.dynamicBackends = map[string]*viaDynamicBackend{}
+		}
+	} else {
+		p.via.server = nil
+	}
+}
